@@ -970,6 +970,33 @@ m("c16-update-params-unchecked-precompiles", "C16", "x/evm/keeper/msg_server.go"
 m("c07-feecap-truncation", "C07", "app/ante/evm/fee_checker.go",
   "\t\tif effectivePrice.Equal(feeCap) {\n\t\t\teffectiveAmount = fee\n\t\t}\n", "",
   "declared-fee-at-the-cap", "the checker charges cap x gas again")
+m("c07-multiplier-default-for-zero", "C07", "x/evm/keeper/keeper.go",
+  "\treturn k.feeMarketKeeper.GetParams(ctx).MinGasMultiplier\n", "\tmultiplier := k.feeMarketKeeper.GetParams(ctx).MinGasMultiplier\n\tif multiplier.IsNil() || multiplier.IsZero() {\n\t\treturn math.LegacyNewDecWithPrec(50, 2)\n\t}\n\treturn multiplier\n",
+  "returns-the-stored-parameter", "a zero multiplier becomes 0.5")
+m("c07-gas-total-on-the-branch", "C07", "x/evm/keeper/state_transition.go",
+  "\ttotalGasUsed, err := k.AddTransientGasUsed(ctx, res.GasUsed)", "\ttotalGasUsed, err := k.AddTransientGasUsed(tmpCtx, res.GasUsed)",
+  "on-the-tx-context", "the running gas total is kept on the message's branch")
+m("c10-burn-error-not-returned", "C10", "x/erc20/keeper/msg_server.go",
+  "\t\treturn nil, errorsmod.Wrap(err, \"failed to burn coins\")\n", "\t\terr = errorsmod.Wrap(err, \"failed to burn coins\")\n",
+  "err-of-BurnCoins", "a failed burn is wrapped but not returned")
+m("c11-stretch-through-the-narrow-setter", "C11", "app/upgrades/v1.7.4/handler.go",
+  "\t\t\tlk.SetDenom(ctx, denom)\n", "\t\t\t_ = lk.UpdateDenomPeriods(ctx, denom.BaseDenom, denom.LockupPeriods)\n",
+  "modified-denom-record-written-back", "the stretched record's EndTime is not stored")
+m("c12-migration-early-return", "C12", "app/upgrades/v1.8.0/upgrades.go",
+  "\toldDaoBalances := bk.GetAllBalances(ctx, oldDaoAccAddr)\n", "\toldDaoBalances := bk.GetAllBalances(ctx, oldDaoAccAddr)\n\tif oldDaoBalances.AmountOf(utils.BaseDenom).IsZero() {\n\t\treturn nil\n\t}\n",
+  "moves-all-balances", "the migration skips an old account without aISLM")
+m("c16-supply-net-of-nothing", "C16", "precompiles/bank/query.go",
+  "\treturn method.Outputs.Pack(supply.Amount.BigInt())", "\treturn method.Outputs.Pack(supply.Amount.SubRaw(0).BigInt())",
+  "SupplyOf#figures-unedited", "the supply passes through arithmetic")
+m("c18-getvalue-hands-out-the-stored-number", "C18", "x/evm/types/legacy_tx.go",
+  "\treturn tx.Amount.BigInt()\n", "\treturn tx.Amount.BigIntMut()\n",
+  "BigIntMut", "GetValue returns the message's own big.Int")
+m("c03-signbytes-of-a-copy", "C03", "x/vesting/types/msg.go",
+  "func (msg *MsgClawback) GetSignBytes() []byte {\n\treturn sdk.MustSortJSON(AminoCdc.MustMarshalJSON(msg))", "func (msg *MsgClawback) GetSignBytes() []byte {\n\tsigned := MsgClawback{FunderAddress: msg.FunderAddress, AccountAddress: msg.AccountAddress}\n\treturn sdk.MustSortJSON(AminoCdc.MustMarshalJSON(&signed))",
+  "MsgClawback).GetSignBytes#marshals-its-receiver", "the sign bytes leave dest_address out")
+m("c02-wrapper-rewrites-a-copy", "C02", "x/ibc/transfer/keeper/msg_server.go",
+  "\tmsg.Token.Denom = pair.Denom\n", "\tcopied := *msg\n\tcopied.Token.Denom = pair.Denom\n\tmsg = &copied\n",
+  "rewrites-the-callers-message", "ibc-go is handed a copy of the message")
 for prop in ("C16", "C07"):
     m("c%s-gas-meter-without-precharge" % prop[1:], prop, "precompiles/common/precompile.go",
       "sdk.NewGasMeter(initialGas + contract.Gas)", "sdk.NewGasMeter(contract.Gas)",
